@@ -122,3 +122,91 @@ def run(db, cx):
                         d = "`return %s` on the edge %s" % (var, f.blocks[br]["cond"]["t"])
         cx.ob("C14.4-range-limited", "calc_mean_energy_loss returns the full energy when step == range",
               ok, d, short(f.loc))
+
+    # 5 ------------------------------------------- table lookups stay inside the table
+    lookup_in_range(db, cx)
+
+
+def lookup_in_range(db, cx):
+    """K3: in every 1-D physics-table calculator the bin search `grid.find(x)` is reached only
+    when x lies strictly inside the grid: it is dominated by the false edge of a test of x
+    against the same grid's front() and of one against its back(), whose true edges leave the
+    function (the documented extrapolation arms).  `find` itself only has a debug assertion."""
+    import re
+    sites = []
+    for pat in (C + "UniformGrid::find", C + "NonuniformGrid::find"):
+        for f, ev in db.callers_of(pat):
+            if re.search(r"Calculator::operator\(\)$", f.name):
+                sites.append((f, ev))
+    cx.floor("table calculators with a bin search", len(set(f.name for f, _e in sites)), 4)
+    done = set()
+    for f, ev in sites:
+        if (f.node, ev["loc"]) in done:
+            continue
+        done.add((f.node, ev["loc"]))
+        pos = [(b, i) for (b, i, e) in f.events("call") if e is ev or (e.get("loc") == ev["loc"] and e["callee"] == ev["callee"])][0]
+        xs = local_refs(ev["args"][0].get("refs", []))
+        grid = (ev.get("recv", {}).get("path") or {})
+        gkey = (grid.get("root"), tuple(grid.get("chain", [])))
+        have = {}
+        for end in ("front", "back"):
+            for br in f.branch_blocks(lambda c, _b: c.get("op") in ("<", "<=", ">", ">=")):
+                c = f.blocks[br]["cond"]
+                l, r = set(local_refs(c.get("lrefs", []))), set(local_refs(c.get("rrefs", [])))
+                calls = c.get("lcalls", []) + c.get("rcalls", [])
+                if not (xs & (l | r)) or not any(x.endswith("Grid::" + end) for x in calls):
+                    continue
+                # out-of-range edge: for front the test is x < / <= front (or front > x); for back x > / >= back
+                x_left = bool(xs & l)
+                op = c["op"]
+                below = (op in ("<", "<=")) == x_left
+                if (end == "front") != below:
+                    continue
+                e_in = f.cond_polarity_edge(br, False)
+                out_tgt = f.blocks[br]["succ"][1 - e_in]
+                leaves = out_tgt is not None and pos[0] not in f.reach([out_tgt])
+                if f.guarded_by_edge(pos, br, e_in) and leaves:
+                    have[end] = c["t"]
+        ok = "front" in have and "back" in have
+        # 6: the interpolation uses the two knots of the bin that was found, for abscissa and
+        # ordinate alike: every table access indexed by the found bin uses idx or idx + 1, and
+        # each accessor is used with both
+        idxv = None
+        for (b2, i2, d) in f.events("def"):
+            if d.get("kind") == "decl" and ev["callee"] in d.get("calls", []) and d.get("loc", "").split(":")[1] == ev["loc"].split(":")[1]:
+                idxv = d["var"]
+        if idxv:
+            acc = {}
+            # locals that are just an index expression over the found bin (`auto hi = idx + 1;`)
+            alias = {}
+            for (b2, i2, d) in f.events("def"):
+                if d.get("kind") == "decl" and set(local_refs(d.get("refs", []))) == {idxv} \
+                        and not d.get("calls") and d.get("var") != idxv:
+                    alias[d["var"]] = d.get("rhs", "").replace(" ", "")
+            for (b2, i2, e2) in f.events("call"):
+                a2 = e2.get("args", [])
+                if len(a2) != 1 or e2.get("macro") or a2[0].get("calls"):
+                    continue
+                rs = set(local_refs(a2[0].get("refs", [])))
+                t = a2[0]["t"].replace(" ", "")
+                if rs != {idxv}:
+                    if len(rs) == 1 and t in alias:
+                        t = alias[t]
+                    else:
+                        continue
+                key = e2["callee"] + "@" + (e2.get("recv", {}).get("t") or "")
+                acc.setdefault(key, set()).add(t)
+            want = {idxv, idxv + "+1"}
+            bad = {k: sorted(v) for k, v in acc.items() if v != want}
+            cx.ob("C14.6-bin-knots", "%s: abscissa and ordinate are read at the two knots of the found "
+                  "bin" % f.name.split("::")[-2], bool(acc) and len(acc) >= 2 and not bad,
+                  "accessors %s" % ({k.split("::")[-1]: sorted(v) for k, v in acc.items()}),
+                  short(ev["loc"]),
+                  why="interpolating between knots of different bins (or one knot twice) leaves the "
+                      "result outside the neighbouring knot values and breaks continuity at the knots")
+        cx.ob("C14.5-lookup-in-range", "%s: find(%s) only for values strictly inside the grid"
+              % (f.name.split("::")[-2], ev["args"][0]["t"]), ok,
+              "guards: %s" % (have or "none"), short(ev["loc"]),
+              why="outside the grid the bin index is garbage in this build (the precondition of "
+                  "find is a debug assertion): the lookup reads past the table instead of "
+                  "following the documented extrapolation")
